@@ -79,6 +79,8 @@ type PercoDesc struct {
 	Gen  string   `json:"gen,omitempty"`
 	// Shared: the case ran on a DB that already held (smaller) keys of earlier cases.
 	Shared bool `json:"shared,omitempty"`
+	// Race: two concurrent requests after the setup Reqs (see fam_perco_race.go).
+	Race *RaceDesc `json:"race,omitempty"`
 }
 
 // Keys and values are raw byte strings; JSON cannot carry invalid UTF-8, so a PercoDesc is written
@@ -110,15 +112,24 @@ func (d PercoDesc) mapStrings(f func(string) string) PercoDesc {
 		}
 		return out
 	}
-	o := PercoDesc{Keys: ml(d.Keys), Gen: d.Gen, Shared: d.Shared}
-	for _, r := range d.Reqs {
+	mr := func(r Req) Req {
 		q := r
 		q.Keys, q.Primary, q.Key = ml(r.Keys), f(r.Primary), f(r.Key)
 		q.Muts = nil
 		for _, m := range r.Muts {
 			q.Muts = append(q.Muts, Mut{Op: m.Op, Key: f(m.Key), Val: f(m.Val)})
 		}
-		o.Reqs = append(o.Reqs, q)
+		return q
+	}
+	o := PercoDesc{Keys: ml(d.Keys), Gen: d.Gen, Shared: d.Shared}
+	for _, r := range d.Reqs {
+		o.Reqs = append(o.Reqs, mr(r))
+	}
+	if d.Race != nil {
+		o.Race = &RaceDesc{X: mr(d.Race.X), Y: mr(d.Race.Y)}
+		for _, r := range d.Race.Tail {
+			o.Race.Tail = append(o.Race.Tail, mr(r))
+		}
 	}
 	return o
 }
@@ -445,8 +456,7 @@ func withPrefix(d PercoDesc, n int) PercoDesc {
 		}
 		return out
 	}
-	o := PercoDesc{Keys: ren(d.Keys), Gen: d.Gen, Shared: true}
-	for _, r := range d.Reqs {
+	rr := func(r Req) Req {
 		q := r
 		q.Keys = ren(r.Keys)
 		if r.T == "pw" || r.T == "ck" {
@@ -459,7 +469,17 @@ func withPrefix(d PercoDesc, n int) PercoDesc {
 		for _, m := range r.Muts {
 			q.Muts = append(q.Muts, Mut{Op: m.Op, Key: pre + m.Key, Val: m.Val})
 		}
-		o.Reqs = append(o.Reqs, q)
+		return q
+	}
+	o := PercoDesc{Keys: ren(d.Keys), Gen: d.Gen, Shared: true}
+	for _, r := range d.Reqs {
+		o.Reqs = append(o.Reqs, rr(r))
+	}
+	if d.Race != nil {
+		o.Race = &RaceDesc{X: rr(d.Race.X), Y: rr(d.Race.Y)}
+		for _, r := range d.Race.Tail {
+			o.Race.Tail = append(o.Race.Tail, rr(r))
+		}
 	}
 	return o
 }
@@ -701,6 +721,9 @@ func runPerco(c *corr.Ctx) error {
 		grid := ttlGridCases()
 		descs = append(descs, grid...)
 		c.CountN("ttl_grid_cases", len(grid))
+		races := raceCases()
+		descs = append(descs, races...)
+		c.CountN("race_cases", len(races))
 		n := c.Scale(700, 12000)
 		for i := 0; i < n; i++ {
 			descs = append(descs, genInterleaved(c))
@@ -709,7 +732,7 @@ func runPerco(c *corr.Ctx) error {
 		c.Meta("exhaustive", true)
 		c.Meta("exhaustive_scope", fmt.Sprintf("every sequence of length <= %d over 11 protocol events (prewrite put+lock-only, commit, rollback, resolve-commit, resolve-rollback, check-txn-status expired / alive / from a caller below the lock's start ts / at the start ts, competing delete txn prewrite + commit) of a transaction 10..20 above a committed base value, followed by GET at 9/15/25, 13/25 and two SCANs", depth))
 	}
-	c.Meta("rule", "request sequences over 3 keys (3 key alphabets incl. prefix-related keys and 0x00/0xff bytes) and 2-4 transactions with distinct timestamps in 1..40: random interleavings of prewrite / commit / rollback / resolve(commit|rollback) / check-txn-status (current ts 0, below / at / above the lock's start ts, before / at / after the expiry point, 2^64-1; ttl 0, small, 2^63 and values for which start+ttl wraps mod 2^64; caller ts below and above commit and 2^64-1; plus a ttl x current-ts grid of 168 cases) with duplicates and missing prewrites, put / delete / lock-only mutations, GET and SCAN (start key, include flag, limit 0..10) at random versions between the events; every step compares the canonicalised response and reader.GetLock of all 3 keys with the model and with the protocol specification. non-trivial = the case contains at least one key error response and one read returning a value")
+	c.Meta("rule", "request sequences over 3 keys (3 key alphabets incl. prefix-related keys and 0x00/0xff bytes) and 2-4 transactions with distinct timestamps in 1..40: random interleavings of prewrite / commit / rollback / resolve(commit|rollback) / check-txn-status (current ts 0, below / at / above the lock's start ts, before / at / after the expiry point, 2^64-1; ttl 0, small, 2^63 and values for which start+ttl wraps mod 2^64; caller ts below and above commit and 2^64-1; plus a ttl x current-ts grid of 168 cases) with duplicates and missing prewrites, put / delete / lock-only mutations, GET and SCAN (start key, include flag, limit 0..10) at random versions between the events; every step compares the canonicalised response and reader.GetLock of all 3 keys with the model and with the protocol specification. Races: 17 request pairs (commit / rollback / resolve / prewrite / competing prewrite vs check-txn-status pushing MinCommitTs or expired, and write vs write) x both roles: one request is in flight (the harness holds its key latches) when the other arrives and must block in latch.Acquire; the two responses, the locks afterwards and the following reads must be one of the two serial orders, and an acknowledged Commit's lock must be gone. non-trivial = the case contains at least one key error response and one read returning a value")
 
 	type res struct {
 		term string
@@ -747,6 +770,9 @@ func runPerco(c *corr.Ctx) error {
 			}
 			defer closeDB()
 			for i := range jobs {
+				if descs[i].Race != nil {
+					continue // races run afterwards, one at a time
+				}
 				st := percoStats{kinds: map[string]int{}}
 				var use *NoKV.DB
 				if descs[i].Shared && shared {
@@ -765,6 +791,28 @@ func runPerco(c *corr.Ctx) error {
 		}(w)
 	}
 	wg.Wait()
+	// races: sequentially, nothing else running (the blocked-in-Acquire probe looks at all goroutines)
+	var rdb *NoKV.DB
+	var rdir string
+	for i := range descs {
+		if descs[i].Race == nil {
+			continue
+		}
+		if rdb == nil {
+			rdir, _ = os.MkdirTemp(tmp, "race")
+			rdb = openDB(filepath.Join(rdir, "db"), 64<<20)
+		}
+		term, blocked := runRaceCase(rdb, descs[i])
+		st := percoStats{kinds: map[string]int{"race": 1}, nontrivial: blocked}
+		if blocked {
+			st.kinds["race_second_request_blocked_on_latch"] = 1
+		}
+		results[i] = res{term, st, nil}
+	}
+	if rdb != nil {
+		rdb.Close()
+		os.RemoveAll(rdir)
+	}
 	for i, r := range results {
 		if r.err != nil {
 			return r.err
